@@ -220,7 +220,8 @@ def family_plus(seed, n):
     rng = random.Random(1000 + seed)
     out = []
     for k in range(n):
-        m = random_shape(rng)
+        # beyond the first 200 shapes the limits are raised to 3 channels x 3 samples x 4 bins x 5 modifiers
+        m = random_shape(rng) if k < 200 else random_shape(rng, max_b=4, max_m=5)
         m["tag"] = f"rand{seed}:{k}"
         out.append(m)
     return out
